@@ -32,6 +32,9 @@ def model_check(ctx):
     ctx.mc_expect("MC_Cache", "DEV_Cache_2.cfg", "InvFresh")
     ctx.mc_expect("MC_Cache", "DEV_Cache_3.cfg", "InvFresh")
     ctx.mc_expect("MC_Cache", "DEV_Cache_4.cfg", "InvFresh")
+    if ctx.thorough:      # unbounded histories: inductive invariant of spec/APA_Cache.tla checked by Apalache (crv/apalache.py)
+        from crv import apalache
+        apalache.append_run(ctx, "APA_Cache")
 
 
 def cases(ctx):
